@@ -83,16 +83,20 @@ OPTS4 = [(1, 1), (1, 0), (0, 1), (0, 0)]
 
 
 def corpus_jobs(seed, per_logic, tag, level, *, orders=2, models=0, max_steps=150, mode=None, logics=None, timeout_s=20,
-                systematic=False):
+                systematic=False, default_too=False):
     """The shared random+schema corpus as proof jobs; options, driver mode and order seed rotate."""
     import corpus
     jobs = []
     meta = {L: m for L, m in LOGIC_META.items() if logics is None or L in logics}
     for n, (L, label, arg) in enumerate(corpus.corpus(seed, per_logic, meta, tag, systematic)):
-        g, r = OPTS4[n % 4]
-        jobs.append({'id': f'{L}/{label}/g{g}r{r}', 'logic': L, 'label': label, 'arg': arg, 'g': g, 'r': r,
-                     'mode': mode or ('step' if n % 2 else 'build'), 'level': level, 'models': models,
-                     'max_steps': max_steps, 'order': (n // 4) % orders, 'timeout_s': timeout_s})
+        combos = [OPTS4[n % 4]]
+        # the hand-written schemas are few and each stands for a mechanism: they are ALSO proved with the default options
+        if default_too and label.startswith('schema:') and not label.startswith('schema:sys:') and combos[0] != OPTS4[0]:
+            combos.append(OPTS4[0])
+        for g, r in combos:
+            jobs.append({'id': f'{L}/{label}/g{g}r{r}', 'logic': L, 'label': label, 'arg': arg, 'g': g, 'r': r,
+                         'mode': mode or ('step' if n % 2 else 'build'), 'level': level, 'models': models,
+                         'max_steps': max_steps, 'order': (n // 4) % orders, 'timeout_s': timeout_s})
     return jobs
 
 
